@@ -12,6 +12,15 @@ theorem pres_shOpen {s s' : St} {a : Act} (hI : Inv s) (h : step .repaired s a =
   | fire t0 =>
     simp only [step] at h
     (repeat' (split at h)) <;> (try cases h) <;> (simp only [St.setPc, St.setObj]; (have i_shOpen := hI.shOpen; have i_shClW := hI.shClW; have i_shClR := hI.shClR; have i_shClT := hI.shClT; have i_wact := hI.wact; have i_wrA := hI.wrA; have i_rdA := hI.rdA; have i_refs := hI.refs; have i_shNil := hI.shNil; grind [needsOpen, wactive, wslot, rslot, PC.ref, knowsNil, setsNil, Obj.fresh]))
+  | corrupt d =>
+    simp only [step] at h
+    (repeat' (split at h)) <;> (try cases h) <;> (simp only []; (have i_shOpen := hI.shOpen; have i_shClW := hI.shClW; have i_shClR := hI.shClR; have i_shClT := hI.shClT; have i_wact := hI.wact; have i_wrA := hI.wrA; have i_rdA := hI.rdA; have i_refs := hI.refs; have i_shNil := hI.shNil; grind [needsOpen, wactive, wslot, rslot, PC.ref, knowsNil, setsNil, Obj.fresh]))
+  | block d =>
+    simp only [step] at h
+    (repeat' (split at h)) <;> (try cases h) <;> (simp only []; (have i_shOpen := hI.shOpen; have i_shClW := hI.shClW; have i_shClR := hI.shClR; have i_shClT := hI.shClT; have i_wact := hI.wact; have i_wrA := hI.wrA; have i_rdA := hI.rdA; have i_refs := hI.refs; have i_shNil := hI.shNil; grind [needsOpen, wactive, wslot, rslot, PC.ref, knowsNil, setsNil, Obj.fresh]))
+  | repair d =>
+    simp only [step] at h
+    (repeat' (split at h)) <;> (try cases h) <;> (simp only []; (have i_shOpen := hI.shOpen; have i_shClW := hI.shClW; have i_shClR := hI.shClR; have i_shClT := hI.shClT; have i_wact := hI.wact; have i_wrA := hI.wrA; have i_rdA := hI.rdA; have i_refs := hI.refs; have i_shNil := hI.shNil; grind [needsOpen, wactive, wslot, rslot, PC.ref, knowsNil, setsNil, Obj.fresh]))
   | run t0 =>
     simp only [step] at h
     split at h
